@@ -23,7 +23,8 @@ LEVEL = 'model_checking'
 FAULTS = [None, ('pa', 'start'), ('pb', 'start'), ('pb', 'restore'), ('pa', 'init_async'), ('pa', 'init_regular'),
           ('pb', 'init_from_value'), ('fb', 'calc_output'), ('pb', 'event'), ('mt', 'main_task'), ('pa', 'stop'),
           ('pb', 'stop'), ('pa', 'stop_async'), ('oa', 'start')]
-CAUSES = ['shutdown', 'support-returns', 'support-raises', 'sigterm', 'ctrl-shutdown', 'ctrl-abort', 'abort', 'none']
+CAUSES = ['shutdown', 'support-returns', 'support-raises', 'sigterm', 'ctrl-shutdown', 'ctrl-abort', 'abort', 'none',
+          'cblock-shutdown', 'cblock-abort']     # control event sent by a CBlock, i.e. from inside the simulation task
 BOUNDS = {'quick': {'fault sites': len(FAULTS), 'termination causes': len(CAUSES),
                     'instants': 't_term, t_fault in [0, 12] s, stop_async duration vs stop_timeout symbolic',
                     'circuit': '8 blocks, 2 creation orders'},
@@ -83,7 +84,7 @@ def instrument(base, log, faults):
     return I
 
 
-def build(env, log, faults, order, ds, st, t_fault):
+def build(env, log, faults, order, ds, st, t_fault, cblock_ctrl=None):
     circ = fresh_circuit()
 
     class PA(edzed.AddonAsync, edzed.SBlock):
@@ -167,6 +168,11 @@ def build(env, log, faults, order, ds, st, t_fault):
         'mt': lambda: instrument(MT, log, faults)('mt', stop_timeout=2.0),
         'fb': lambda: instrument(edzed.FuncBlock, log, faults)('fb', func=fb_func).connect('pb'),
     }
+    if cblock_ctrl:
+        order = list(order) + ['trig']
+        makers['trig'] = lambda: instrument(edzed.FuncBlock, log, faults)(
+            'trig', func=lambda x: x == 'boom',
+            on_output=edzed.Event('_ctrl', cblock_ctrl, efilter=lambda d: d['value'])).connect('pb')
     blocks = {}
     for n in order:
         blocks[n] = makers[n]()
@@ -181,7 +187,7 @@ def scen_life(env, fault_idx, cause, order_idx, sym_stop=False):
     fault = FAULTS[fault_idx]
     faults = {fault: True} if fault else {}
     log = Log()
-    timed_fault = fault in (('pb', 'event'), ('fb', 'calc_output'), ('mt', 'main_task'))
+    timed_fault = fault in (('pb', 'event'), ('fb', 'calc_output'), ('mt', 'main_task')) and not cause.startswith('cblock-')
     if sym_stop:
         ds = env.real('stop_async_duration', 0, 20, lo_open=True)
         st = env.real('stop_timeout', 0, 20, lo_open=True)
@@ -189,10 +195,11 @@ def scen_life(env, fault_idx, cause, order_idx, sym_stop=False):
         ds, st = (1.0, 5.0) if fault != ('pa', 'stop_async') else (1.0, 5.0)
     t_fault = env.real('t_fault', 0, 12) if timed_fault else 0.0
     t_term = env.real('t_term', 0, 12)
-    circ, blocks, oa_calls, of_calls = build(env, log, faults, ORDERS[order_idx], ds, st, t_fault)
+    cblock_ctrl = cause[7:] if cause.startswith('cblock-') else None
+    circ, blocks, oa_calls, of_calls = build(env, log, faults, ORDERS[order_idx], ds, st, t_fault, cblock_ctrl)
     res = {}
     use_run = cause in ('support-returns', 'support-raises', 'sigterm')
-    timed_fault = fault in (('pb', 'event'), ('fb', 'calc_output'))
+    timed_fault = fault in (('pb', 'event'), ('fb', 'calc_output')) and not cause.startswith('cblock-')
 
     async def fault_task():
         await asyncio.sleep(t_fault)
@@ -231,6 +238,14 @@ def scen_life(env, fault_idx, cause, order_idx, sym_stop=False):
                 circ.findblock('_ctrl').event(cause[5:], source='harness')
             except Exception:
                 pass
+        elif cblock_ctrl:
+            # one external event; the CBlock 'trig' sends the control event while the simulator is
+            # evaluating, and (with the calc_output fault) another block fails in the same step
+            try:
+                blocks['pb'].event('x', value='boom')
+            except Exception:
+                pass
+            await asyncio.sleep(10000)
         elif cause == 'sigterm':
             signal.raise_signal(signal.SIGTERM)
             await asyncio.sleep(10000)
@@ -296,8 +311,16 @@ def scen_life(env, fault_idx, cause, order_idx, sym_stop=False):
     n_before = None
     saved = signal.getsignal(signal.SIGTERM)
     try:
+        if cblock_ctrl:
+            # both evaluation orders of the two CBlocks fed by 'pb' (solver-enumerated set order)
+            from harness.simdrive import ChoiceSet
+            from edzed import simulator
+            ChoiceSet.budget[0] = 6
+            simulator.set = ChoiceSet
         vloop.run(main())
     finally:
+        if cblock_ctrl:
+            del simulator.set
         signal.signal(signal.SIGTERM, saved)
     # ---- checks ---------------------------------------------------------------------------------
     if cause == 'none' and fault in (None, ('pb', 'restore'), ('pa', 'init_async'), ('pa', 'stop'), ('pb', 'stop'),
@@ -317,7 +340,7 @@ def scen_life(env, fault_idx, cause, order_idx, sym_stop=False):
             env.check('not-started-not-stopped', sp == 0, info=lambda: (n, sr, sp, fault, cause))
     # blocks with asynchronous clean-up are stopped (and awaited) before the remaining blocks
     async_blocks = [n for n in ('pa', 'rep', 'oa', 'mt') if log.count(n, 'stop')]
-    sync_blocks = [n for n in ('pb', 'tm', 'of', 'fb') if log.count(n, 'stop')]
+    sync_blocks = [n for n in ('pb', 'tm', 'of', 'fb', 'trig') if log.count(n, 'stop')]
     if async_blocks and sync_blocks:
         last_async = max(log.index(n, 'stop') for n in async_blocks)
         first_sync = min(log.index(n, 'stop') for n in sync_blocks)
@@ -372,7 +395,10 @@ def shards(tier):
         for cause in CAUSES:
             if cause == 'none' and not ends_by_itself(fault):
                 continue
-            if tier == 'quick' and fault is not None and cause not in ('shutdown', 'sigterm', 'none', 'ctrl-abort'):
+            if cause.startswith('cblock-') and fault not in (None, ('fb', 'calc_output'), ('pa', 'stop_async'), ('pb', 'stop')):
+                continue
+            if tier == 'quick' and fault is not None and cause not in ('shutdown', 'sigterm', 'none', 'ctrl-abort',
+                                                                         'cblock-shutdown', 'cblock-abort'):
                 continue
             for oi in (0, 1):
                 if tier == 'quick' and oi == 1 and (fault is not None and cause != 'shutdown'):
